@@ -280,13 +280,14 @@ func (c *Coord) defaultReply(body interface{}) interface{} {
 // ---- the session ----
 
 type FakeSession struct {
-	coord  *Coord
-	id     int
-	addr   string
-	closed int32
-	attrMu sync.Mutex
-	attrs  map[interface{}]interface{}
-	Sent   int64 // frames the coordinator pushed to the client
+	coord           *Coord
+	id              int
+	addr            string
+	closed          int32
+	attrMu          sync.Mutex
+	attrs           map[interface{}]interface{}
+	Sent            int64 // frames the coordinator pushed to the client
+	closeAt, checks int32
 }
 
 var pkgHandler = &sgetty.RpcPackageHandler{}
@@ -380,9 +381,24 @@ func (s *FakeSession) CloseFromPeer() {
 	}
 }
 
-func (s *FakeSession) IsClosed() bool { return atomic.LoadInt32(&s.closed) == 1 }
-func (s *FakeSession) Close()         { atomic.StoreInt32(&s.closed, 1) }
-func (s *FakeSession) ID() uint32     { return uint32(s.id) }
+// IsClosed: a session armed with CloseAtCheck(k) starts answering "closed" at the k-th question (the
+// connection goes away between two looks at it)
+func (s *FakeSession) IsClosed() bool {
+	if k := atomic.LoadInt32(&s.closeAt); k > 0 {
+		if atomic.AddInt32(&s.checks, 1) >= k {
+			atomic.StoreInt32(&s.closed, 1)
+		}
+	}
+	return atomic.LoadInt32(&s.closed) == 1
+}
+
+// CloseAtCheck arms the session: from the k-th IsClosed() question on it is closed.
+func (s *FakeSession) CloseAtCheck(k int) {
+	atomic.StoreInt32(&s.checks, 0)
+	atomic.StoreInt32(&s.closeAt, int32(k))
+}
+func (s *FakeSession) Close()     { atomic.StoreInt32(&s.closed, 1) }
+func (s *FakeSession) ID() uint32 { return uint32(s.id) }
 func (s *FakeSession) RemoteAddr() string {
 	return s.addr
 }
